@@ -93,6 +93,15 @@ class Session:
         self.time += time.time() - t0
         self.queries += 1
         if ans not in ("sat", "unsat", "unknown"):
+            # a solver that printed an error may have exited (cvc5 does): restart it so later queries are not poisoned
+            if self.p.poll() is not None or "error" in ans:
+                try:
+                    self.p.kill()
+                    self.p.wait()
+                except Exception:
+                    pass
+                self.restarts += 1
+                self._start()
             return "error:" + ans[:200], model
         return ans, model
 
